@@ -447,6 +447,49 @@ func niceNorm(sq float64) bool {
 	return fr == 0.5 // r is a power of two => 1/r exact
 }
 
+// sphSeen3 renders what the recording stub saw of ONE sphere query put to wrappers xs (innermost first) around
+// it: "<centre> <radius> <answer>".  A wrapper that answers without asking the wrapped collider is not
+// reported as long as that is what every collider with these bounds would have led to: the sphere pulled
+// back through the inverses (computed here member by member, exact on these inputs) does not reach the
+// stub's bounds and the answer is "no collision" - or the answer is the stub's own.  Otherwise the case is
+// emitted with "not-asked <answer>", which no model output equals (theorem transform_collider_sphere).
+func sphSeen3(c *hlib.Ctx, st *stub3, xs []*xf, ctr model3d.Coord3D, rad float64, got bool) (string, bool) {
+	if len(st.sphC) > 0 {
+		return p3s(st.sphC[0]) + " " + rs(st.sphR[0]) + " " + bstr(got), true
+	}
+	for i := len(xs) - 1; i >= 0; i-- {
+		inv := xs[i].build3().Inverse().(model3d.DistTransform)
+		ctr, rad = inv.Apply(ctr), inv.ApplyDistance(rad)
+	}
+	near := ctr.Max(st.Min()).Min(st.Max())
+	d2, r2 := near.Sub(ctr).NormSquared(), rad*rad
+	if (d2 >= r2 && !got) || (d2 <= r2 && got == st.sphReply) {
+		c.Stat("sphin3.not-asked-but-consistent", 1)
+		return "", false
+	}
+	c.Stat("sphin3.not-asked", 1)
+	return "not-asked " + bstr(got), true
+}
+
+// sphSeen2 is the 2-D twin of sphSeen3.
+func sphSeen2(c *hlib.Ctx, st *stub2, xs []*xf, ctr model2d.Coord, rad float64, got bool) (string, bool) {
+	if len(st.sphC) > 0 {
+		return p2s(st.sphC[0]) + " " + rs(st.sphR[0]) + " " + bstr(got), true
+	}
+	for i := len(xs) - 1; i >= 0; i-- {
+		inv := xs[i].build2().Inverse().(model2d.DistTransform)
+		ctr, rad = inv.Apply(ctr), inv.ApplyDistance(rad)
+	}
+	near := ctr.Max(st.Min()).Min(st.Max())
+	d2, r2 := near.Sub(ctr).NormSquared(), rad*rad
+	if (d2 >= r2 && !got) || (d2 <= r2 && got == st.sphReply) {
+		c.Stat("sphin2.not-asked-but-consistent", 1)
+		return "", false
+	}
+	c.Stat("sphin2.not-asked", 1)
+	return "not-asked " + bstr(got), true
+}
+
 func fewBits(xs ...float64) bool {
 	for _, x := range xs {
 		if x != math.Round(x*1024)/1024 || math.Abs(x) > 1024 {
@@ -483,6 +526,8 @@ func run(c *hlib.Ctx) {
 	runHist3(c)
 	runHistConj3(c)
 	runHist2(c)
+	runScene3(c)
+	runScene2(c)
 }
 
 func main() { hlib.Main("C05", run) }
